@@ -261,6 +261,32 @@ def owner():
     return '\n'.join(o) + '\n'
 
 
+def wrappers():
+    """free operators | & ^ ~ through one-line wrappers of the instantiation unit (library code inlined): the result is an OWNING bitset
+    with the combined bits, the operands are unchanged and nothing visible to the caller is written (assigns() - a view operand's
+    caller memory in particular)"""
+    o = []
+    def W(name, K, expr, binary=True):
+        pre = 'OBJ(a) && WF_%s(a)' % K + ((' && OBJ(b) && WF_%s(b) && a->m_size == b->m_size' % K) if binary else '')
+        D = {'bvb': lambda s: '%s->m_buffer.storage_.ptr' % s, 'bsb': lambda s: '%s->m_buffer.data' % s}[K]
+        cl = ['__CPROVER_requires(%s)' % pre,
+              '__CPROVER_requires(xv_g < a->m_size ==> (xv_a0 == BIT_%s(a, xv_g) && xv_a1 == %s[GBLK]))' % (K, D('a'))]
+        if binary:
+            cl.append('__CPROVER_requires(xv_g < a->m_size ==> (xv_a3 == BIT_%s(b, xv_g) && xv_a2 == %s[GBLK]))' % (K, D('b')))
+        cl += ['__CPROVER_ensures(RV.__base_0.m_size == a->m_size && RV.__base_0.m_buffer.size == CEILW(a->m_size) && RV.__base_0.m_buffer.data != %s)' % D('a'),
+               '__CPROVER_ensures(a->m_size % XV_W == 0 || (RV.__base_0.m_buffer.data[RV.__base_0.m_buffer.size - 1] >> (a->m_size % XV_W)) == 0)',
+               '__CPROVER_ensures(xv_g < a->m_size ==> BIT_bsb((&RV.__base_0), xv_g) == (%s))' % expr,
+               '__CPROVER_ensures(xv_g < a->m_size ==> BIT_%s(a, xv_g) == xv_a0)' % K,
+               '__CPROVER_assigns()']
+        o.append('#define XV_CONTRACT_w_%s \\\n  %s' % (name, ' \\\n  '.join(cl)))
+    W('or_vv', 'bvb', 'xv_a0 | xv_a3')
+    W('and_vv', 'bvb', 'xv_a0 & xv_a3')
+    W('xor_vv', 'bvb', 'xv_a0 ^ xv_a3')
+    W('or_ss', 'bsb', 'xv_a0 | xv_a3')
+    W('not_v', 'bvb', 'xv_a0 ^ 1ul', binary=False)
+    return '\n'.join(o) + '\n'
+
+
 def view(S='unsigned_char'):
     """xdynamic_bitset_view<X> over caller memory"""
     PA = {'unsigned_char': 'puc', 'unsigned_short': 'pus', 'unsigned_int': 'pu', 'unsigned_long': 'pul'}[S]
